@@ -225,7 +225,8 @@ class C15:
         s = Script()
         emit_schema(s, 0, schema)
         s.add("init", 1, 0, flags)
-        s.add("init", 2, 0, flags)
+        emit_schema(s, 1, schema)       # a second copy of the declaration: "simple" options keep their value in a variable per declaration
+        s.add("init", 2, 1, flags)
         ip = s.add("parse_buf", 1, hx(text))
         id1 = s.add("dump", 1)
         irt = s.add("roundtrip", 1, 2)
@@ -260,7 +261,7 @@ class C15:
                 sc = draw(st.sampled_from(hand))
                 opts = HAND[sc]
             else:
-                opts = draw(schemas(nocase=bool(flags & F_NOCASE), allow_ptr=False))
+                opts = draw(schemas(nocase=bool(flags & F_NOCASE), allow_ptr=False, allow_simple=True))
                 sc = opts
             toks = draw(gen_text.text_tokens(opts, flags, max_items=4, bad_p=0.03))
             if draw(st.integers(0, 4)) == 0:
